@@ -73,6 +73,25 @@ Qed.
 Lemma wrap_h_small n : n < 18446744073709551616 -> wrap_h n = n.
 Proof. intros. unfold wrap_h. apply N.mod_small. assumption. Qed.
 
+(* requests that only present (inode, handle): they answer with a table error or whatever the host says,
+   and change nothing but (read / write) the flags recorded for the handle *)
+Lemma huse_cases c s kind i h :
+  exists r s', hstep c s (HUse kind i h) = (r, s') /\ (r = HHost \/ exists e, r = HErr e) /\
+               (s' = s \/ exists m, s' = set_oflags s m).
+Proof.
+  assert (CF : forall fl, check_fd_flags s h fl = s \/ exists m, check_fd_flags s h fl = set_oflags s m).
+  { intros fl. unfold check_fd_flags. destruct (mget N.eqb (oflags s) h) as [f|]; [|left; reflexivity].
+    destruct (f =? fl); [left; reflexivity|right; eauto]. }
+  cbn [hstep].
+  destruct kind as [|p]; [|destruct p as [p|p|]; [destruct p as [p|p|]; [destruct p as [p|p|]| destruct p as [p|p|]|]
+                                                  |destruct p as [p|p|]; [destruct p as [p|p|]|destruct p as [p|p|]; [|destruct p as [p|p|]|]|]|]];
+    repeat match goal with
+           | |- context[if ?b then _ else _] => destruct b
+           end;
+    try (do 2 eexists; split; [reflexivity|split; [first [left; reflexivity|right; eexists; reflexivity]|first [left; reflexivity|apply CF]]]).
+Qed.
+
+
 (* ------------------------------------------------------------------ the handle table is the client's ledger of handles *)
 Theorem handles_refine_ledger c s o :
   handles (snd (hstep c s o)) = hspec_step (handles s) o (fst (hstep c s o)).
@@ -88,7 +107,7 @@ Proof.
   - destruct (if no_opendir c then open_inode_ok s i else handle_get s h i); [|reflexivity].
     destruct host as [b|]; [|reflexivity].
     destruct (readdir_entries (hc c) plus (ino s) ents). reflexivity.
-  - reflexivity.
+  - destruct (huse_cases c s kind i h) as (r & s' & E & [->|[e ->]] & [->|[m ->]]); cbn [hstep] in E; rewrite E; reflexivity.
   - cbn. unfold h_import. cbn. destruct (eff_fh (hc c) root); reflexivity.
 Qed.
 
@@ -121,8 +140,7 @@ Proof.
   - destruct (if no_opendir c then open_inode_ok s i else handle_get s h0 i); [|cbn; intros [X|[j X]]; discriminate].
     destruct host as [b|]; [|cbn; intros [X|[j X]]; discriminate].
     destruct (readdir_entries (hc c) plus (ino s) ents). cbn; intros [X|[j X]]; discriminate.
-  - cbn. intros [X|[j X]]; destruct kind as [|[[q|q|]|[q|q|]|]]; cbn in X;
-      repeat match type of X with context[if ?b then _ else _] => destruct b end; discriminate.
+  - destruct (huse_cases c s kind i h0) as (r & s' & E & [->|[e ->]] & _); cbn [hstep] in E; rewrite E; cbn; intros [X|[j X]]; discriminate.
   - cbn. intros [X|[j X]]; discriminate.
 Qed.
 
@@ -205,7 +223,7 @@ Proof.
       destruct (inv_with_ino s i1 I) as (B1 & _).
       unfold HInv, Bal, HBound, HNoDup, CookieSub, fds_owned, hget, with_ino in *. cbn in *. repeat split; auto.
     + cbn [snd]. unfold HInv, Bal, HBound, HNoDup, CookieSub, fds_owned, hget in *. cbn. repeat split; auto.
-  - exact I.
+  - destruct (huse_cases c s kind i h) as (r & s' & E & _ & [->|[m ->]]); cbn [hstep] in E; rewrite E; exact I.
   - cbn [snd].
     apply h_import_inv; cbn; auto.
     unfold Bal, fds_owned in B. lia.
@@ -224,7 +242,7 @@ Proof.
     destruct r; try reflexivity. destruct (no_open c); reflexivity.
   - destruct (if no_opendir c then open_inode_ok s i else handle_get s h i); [|reflexivity].
     destruct host as [b|]; [|reflexivity]. destruct (readdir_entries (hc c) plus (ino s) ents). reflexivity.
-  - reflexivity.
+  - destruct (huse_cases c s kind i h) as (r & s' & E & _ & [->|[m ->]]); cbn [hstep] in E; rewrite E; reflexivity.
   - cbn [snd]. match goal with |- leaked (h_import c ?s0 root) = _ => destruct (h_import_inv c s0 root) as (_ & L & _) end;
       cbn; auto. unfold Bal, fds_owned in B. lia.
 Qed.
@@ -247,7 +265,7 @@ Proof.
     destruct r; cbn; try lia. destruct (no_open c); cbn; [lia|]. rewrite wrap_h_small by lia. lia.
   - destruct (if no_opendir c then open_inode_ok s i else handle_get s h i); [|cbn; lia].
     destruct host as [b|]; [|cbn; lia]. destruct (readdir_entries (hc c) plus (ino s) ents). cbn. lia.
-  - cbn. lia.
+  - destruct (huse_cases c s kind i h) as (r & s' & E & _ & [->|[m ->]]); cbn [hstep] in E; rewrite E; cbn; lia.
   - cbn [snd]. unfold h_import. cbn. destruct (eff_fh (hc c) root); cbn; lia.
 Qed.
 
@@ -381,7 +399,7 @@ Proof.
     destruct host as [b|]; [|left; reflexivity].
     right. exists (OReaddir plus ents). split; [reflexivity|]. cbn [step].
     destruct (readdir_entries (hc c) plus (ino s) ents). reflexivity.
-  - left. reflexivity.
+  - left. destruct (huse_cases c s kind i h) as (r & s' & E & _ & [->|[m ->]]); cbn [hstep] in E; rewrite E; reflexivity.
   - right. exists (ODestroy root). split; [reflexivity|]. cbn [snd step]. unfold h_import. cbn.
     destruct (eff_fh (hc c) root); reflexivity.
 Qed.
@@ -405,7 +423,7 @@ Proof.
   - destruct (step (hc c) (ino s) (OCreate p t ex ok)) as [r i1]. destruct r; try exact M. destruct (no_open c); exact M.
   - destruct (if no_opendir c then open_inode_ok s i else handle_get s h i); [|exact M].
     destruct host as [b|]; [|exact M]. destruct (readdir_entries (hc c) plus (ino s) ents). exact M.
-  - exact M.
+  - destruct (huse_cases c s kind i h) as (r & s' & E & _ & [->|[m ->]]); cbn [hstep] in E; rewrite E; exact M.
   - cbn [snd]. unfold hop_wf, ino_op, op_wf, wf_t, okfh in W. unfold h_import. cbn.
     destruct (eff_fh (hc c) root); cbn in *; destruct (ifh (hc c)); cbn in *; congruence.
 Qed.
